@@ -129,7 +129,18 @@ class Tmatrix(ScatteringTheory):
         s11, s12, s21, s22 = ampld(*args)
         for s in [s11, s12, s21, s22]:
             s *= (-2j*np.pi/med_wavelen)
-        scat_matr = np.array([[s11, s12], [s21, s22]]).transpose()
+        # ampld returns Mishchenko's amplitude matrix, which maps the lab
+        # frame (x, y) components of the incident field to the (theta, phi)
+        # components of the scattered field. Convert it to the (parallel,
+        # perpendicular) basis of the scattering plane used everywhere else
+        # in holopy (Bohren & Huffman): E_perp = -E_phi, and
+        # (E_x, E_y) = [[cos, sin], [sin, -cos]] (E_par, E_perp).
+        phi = np.atleast_1d(args[13]) * np.pi / 180
+        cphi, sphi = np.cos(phi), np.sin(phi)
+        scat_matr = np.array(
+            [[s11 * cphi + s12 * sphi, s11 * sphi - s12 * cphi],
+             [-s21 * cphi - s22 * sphi, -s21 * sphi + s22 * cphi]]
+            ).transpose(2, 0, 1)
         return scat_matr
 
     def raw_fields(self, pos, scatterer, medium_wavevec, medium_index,
@@ -153,10 +164,7 @@ class Tmatrix(ScatteringTheory):
 
         for i, point in enumerate(pos.T):
             kr, theta, phi = point
-            # TODO: figure out why postfactor is needed -- it is not used in dda.py
-            postfactor = np.array([[np.cos(phi),np.sin(phi)],
-                                   [-np.sin(phi),np.cos(phi)]])
-            escat_sph = mieangfuncs.calc_scat_field(kr, phi,
-                                    np.dot(scat_matr[i],postfactor), [1,0])
+            escat_sph = mieangfuncs.calc_scat_field(kr, phi, scat_matr[i],
+                                                    [1,0])
             fields[i] = mieangfuncs.fieldstocart(escat_sph, theta, phi)
         return fields.T
